@@ -102,6 +102,7 @@ def run_C01(tier, rnd, st, res):
     cases += list(gen_random(rnd, 2500 if tier == 'quick' else 20000))
     cases += list(gen_boundaries(rnd, frac=0.25 if tier == 'quick' else 1.0))
     cases += list(gen_multipart_boundaries(rnd, 150 if tier == 'quick' else 2000))
+    cases += list(gen_requested_version_gap(rnd, 30 if tier == 'quick' else 300))
     cases += list(gen_eci_boundaries(rnd, range(1, 5) if tier == 'quick' else range(1, 41)))
     if tier != 'quick':
         cases += [Case(bytes([a, b]), {}, 'two-bytes') for a in range(0, 256) for b in range(0, 256, 1)]
@@ -115,19 +116,22 @@ def run_C01(tier, rnd, st, res):
 def run_C13(tier, rnd, st, res):
     cases = []
     # numeric lengths give every residue of the stream length mod 8 and every distance to capacity
-    vs = ALL_VERSIONS if tier != 'quick' else [-3, -2, -1, 0, 1, 2, 3, 5, 7, 10, 14, 20, 21, 27, 28, 34, 35, 40]
-    for v in vs:
+    dense = set(ALL_VERSIONS if tier != 'quick' else [-3, -2, -1, 0, 1, 2, 3, 5, 7, 10, 14, 21, 27, 34, 40])
+    for v in ALL_VERSIONS:
         for e in levels_of(v):
             nmax = max_chars(v, e, 1)
-            lens = sorted(set(list(range(1, min(nmax, 14) + 1)) + list(range(max(1, nmax - 12), nmax + 1))))
+            if v in dense:
+                lens = sorted(set(list(range(1, min(nmax, 14) + 1)) + list(range(max(1, nmax - 12), nmax + 1))))
+            else:   # every version / level is still visited at both ends (table cells!)
+                lens = sorted({1, 2, 3, max(1, nmax - 2), max(1, nmax - 1), nmax})
+            kw = dict(version=vname(v), boost_error=False, mask=rnd.randrange(4))
+            if e is not None:
+                kw['error'] = LEVEL_NAME[e]
             for n in lens:
-                kw = dict(version=vname(v), boost_error=False, mask=rnd.randrange(4))
-                if e is not None:
-                    kw['error'] = LEVEL_NAME[e]
-                cases.append(Case(content_for(rnd, 1, n), kw, 'numeric-residues'))
+                cases.append(Case(content_for(rnd, 1, n), dict(kw), 'numeric-residues'))
             for mode in [m for m in modes_of(v) if m != 1]:
                 nm = max_chars(v, e, mode)
-                for n in sorted({1, 2, max(1, nm - 1), nm}):
+                for n in (sorted({1, 2, max(1, nm - 1), nm}) if v in dense else [nm]):
                     if n >= 1 and nm >= 1:
                         cases.append(Case(content_for(rnd, mode, n), dict(kw, mode=MODE_NAME[mode]), 'other-modes'))
     cases += list(gen_random(rnd, 300 if tier == 'quick' else 3000))
@@ -139,6 +143,7 @@ def run_C13(tier, rnd, st, res):
 def run_C04(tier, rnd, st, res):
     cases = list(gen_boundaries(rnd, micro_opts=(None,) if tier == 'quick' else (None, True, False)))
     cases += list(gen_multipart_boundaries(rnd, 250 if tier == 'quick' else 2500))
+    cases += list(gen_requested_version_gap(rnd, 40 if tier == 'quick' else 400))
     cases += list(gen_eci_boundaries(rnd, range(1, 8) if tier == 'quick' else range(1, 41)))
     if tier == 'quick':
         cases += list(gen_boundaries(rnd, micro_opts=(True, False), frac=0.34))
